@@ -233,6 +233,9 @@ func runProbes(work string, idx int, in c09Input) Record {
 func genProbes(r *rand.Rand) c09Input {
 	in := c09Input{Kind: "probes"}
 	names := [][]byte{[]byte("a"), []byte("b"), []byte("c")}
+	if r.IntN(8) == 0 { // a name longer than any small request limit: conditional gets of it behave like any other
+		names[1] = c08LongName
+	}
 	nver := map[string]int{}
 	for k := 3 + r.IntN(8); k > 0; k-- {
 		n := names[r.IntN(2)]
